@@ -90,10 +90,10 @@ func c09Run(c *core.Ctx) {
 	var chainGrid int64
 	var chainDepth int
 	if c.Tier == core.Quick {
-		scopes = []scope{{5, 3, []int64{ms}}, {4, 2, []int64{ns, sec, hour + ms}}, {3, 3, []int64{ns, hour + ms}}}
+		scopes = []scope{{5, 3, []int64{ms}}, {4, 2, []int64{ns, sec, hour + ms}}, {3, 3, []int64{ns, hour + ms}}, {5, 2, []int64{25*hour + ms}}} // the last: cues up to 125 h
 		chainMax, chainGrid, chainDepth = 2, 3, 3
 	} else {
-		scopes = []scope{{5, 3, []int64{ns, ms, sec, hour + ms}}, {4, 4, []int64{ms, hour + ms}}}
+		scopes = []scope{{5, 3, []int64{ns, ms, sec, hour + ms, 25*hour + ms}}, {4, 4, []int64{ms, hour + ms}}}
 		chainMax, chainGrid, chainDepth = 3, 3, 3
 	}
 	texts := []string{"x|1\n\n2", "y"} // first text: two runs on the first line, an empty line, a third line
